@@ -7,12 +7,13 @@
      (1) get_dependencies(p, v) is immediately preceded by the choose_version(p, _) that returned v
          ([protocol_deps_preceded]);
      (2) get_dependencies is called at most once per (p, v) ([protocol_deps_once]).
-   NOT proved in Coq (decided by the trace checker of the harness on every recorded trace, and by the
-   model refusing any choose_version whose set differs from the package's current term): clause (3)
-   "choose_version(p, set) is called with a non-empty set identical to the set last passed to
-   prioritize for p" and clause (4) "the first version query is the root with the singleton set". *)
+     (3) [protocol_choose_set_is_last_prioritized] (for every lawful VersionSet and every trace whose dependency
+         answers carry well-formed sets): the set of every choose_version(p, set) call the model accepts is the
+         set of the LAST prioritize call for p before it (Proofs/SolverQueue2.v).
+   NOT proved in Coq (decided by the trace checker of the harness on every recorded trace): the "non-empty"
+   part of clause (3) and clause (4) "the first version query is the root with the singleton set". *)
 From Coq Require Import List NArith Bool.
-From PG Require Import Model.VS Model.Term Model.Solver Proofs.SolverTrace Proofs.SolverProtocol.
+From PG Require Import Model.VS Model.Term Model.Solver Proofs.VSLaws Proofs.SolverQueue2 Proofs.SolverTrace Proofs.SolverProtocol.
 Import ListNotations.
 
 Section C12.
@@ -57,8 +58,20 @@ Section C12.
   Qed.
 End C12.
 
+Section C12_semantic.
+  Context {VS Vr : Type} (O : VSOps VS Vr) (L : VSLawful O) (veqb : Vr -> Vr -> bool).
+  Notation event := (event (VS := VS) (Vr := Vr)).
+
+  Theorem protocol_choose_set_is_last_prioritized :
+    forall fuel r v (tr : list event) o st' log cnt i p s a,
+      trace_wf O L tr -> resolve O veqb fuel r v tr = (o, st', log, cnt) ->
+      i < cnt -> nth_error tr i = Some (EvChoose p s a) -> exists z, last_prio_at tr i p s z.
+  Proof. exact (resolve_choose_set O L veqb). Qed.
+End C12_semantic.
+
 Print Assumptions protocol_consumed_trace_partial.
 Print Assumptions protocol_first_cancel.
 Print Assumptions protocol_after_choose.
 Print Assumptions protocol_deps_preceded.
 Print Assumptions protocol_deps_once.
+Print Assumptions protocol_choose_set_is_last_prioritized.
